@@ -4,8 +4,8 @@ SPECIFICATION SpecB
 CONSTANTS
   MaxH = 0
   ExtraR = 0
-  MaxHB = 2
-  MaxRB = 4
+  MaxHB = 1
+  MaxRB = 3
   MaxBatch = 2
   RawCap = 1
   WarmCap = 2
